@@ -116,9 +116,12 @@ func readAll(get func(store byte) statemachine.Store) map[string]string {
 
 func (m *module) Name() string { return "verif" }
 func (m *module) InitGenesisState(ctx *statemachine.GenesisBlockProcessingContext) error {
-	if m.genesisVariant == 1 {
+	if m.genesisVariant >= 1 {
 		ctx.GetStore(storePrefix, subA).Set(keysU[0], vals[2])
 		ctx.GetStore(storePrefix, subB).Set(keysU[1], vals[1])
+	}
+	if m.genesisVariant == 2 {
+		ctx.GetStore(storePrefix, subA).Set(keysU[1], []byte{}) // a key stored with an empty value is a stored key
 	}
 	return nil
 }
@@ -139,7 +142,8 @@ func (m *module) AfterTransactionsExecute(ctx *statemachine.AfterTransactionsExe
 func (m *module) BeforeCommandExecute(ctx *statemachine.TransactionExecuteContext) error {
 	m.oldViews[0] = ctx.GetStore(storePrefix, subA)
 	m.oldViews[1] = ctx.GetStore(storePrefix, subB)
-	return nil
+	// an event of the same transaction logged before the command runs (it precedes the command's snapshot)
+	return ctx.EventQueue().Add("verif", "before", []byte{0xbe}, []codec.Hex{[]byte{0x33}})
 }
 func (m *module) AfterCommandExecute(ctx *statemachine.TransactionExecuteContext) error {
 	m.lastObs = &observation{
@@ -433,12 +437,15 @@ func genesisState(v int) map[string]string {
 	if v == 1 {
 		return map[string]string{"A.k0": string(vals[2]), "B.k1": string(vals[1])}
 	}
+	if v == 2 {
+		return map[string]string{"A.k0": string(vals[2]), "B.k1": string(vals[1]), "A.k1": ""}
+	}
 	return map[string]string{}
 }
 
 // checkEvents verifies the events of one executed transaction.
 func checkEvents(r *vlib.Run, s script, res txResult, c caseT) {
-	wantNames := []string{}
+	wantNames := []string{"before"}
 	for _, st := range s.Steps {
 		if st.Kind == 1 && !s.Fail {
 			wantNames = append(wantNames, "revertible")
@@ -506,7 +513,7 @@ func main() {
 		si      int
 	}
 	jobs := []job{}
-	for v := 0; v < 2; v++ {
+	for v := 0; v < 3; v++ {
 		for si := range scripts {
 			jobs = append(jobs, job{v, si})
 		}
@@ -610,7 +617,7 @@ func main() {
 				seconds = append(seconds, sc)
 			}
 		}
-		for v := 0; v < 2; v++ {
+		for v := 0; v < 3; v++ {
 			for _, s1 := range firsts {
 				for _, s2 := range seconds {
 					c := caseT{Variant: v, Blocks: []string{s1.String() + " ; " + s2.String()}, What: "two transactions in one block"}
